@@ -259,6 +259,14 @@ def check_content(c, o, w, out, chunks, ids, header, main=True):
         hdr = [bytes.fromhex(x).decode("utf8") for x in (o.get("hdr_fields") or [])]
         if len(hdr) == 1:
             rows = [r if r else [""] for r in rows]     # encoding/csv writes a lone empty field as a blank line (observation, see META)
+        if not main and "a" in str(c.get("csv") or ""):
+            # --auto columns of the file of the mates are proposed from ITS batch 0 (the mates carry other attribute sets than
+            # the forward reads): the harness cannot precompute them; demanded here: one header line, every row as wide, one
+            # row per mate (C04_csv_rectangular / C04_csv_table on the mates' own column set)
+            nrec = sum(len(b) for b in (o.get("info") or []))
+            if not rows or any(len(r) != len(rows[0]) for r in rows) or len(rows) - 1 != nrec:
+                return "auto columns: the file is not one header line plus one row of the same width per mate"
+            return None
         if not rows or rows[0] != hdr:
             return "first line is not the header"
         if main and hdr[:1] == ["id"] and [r[0] if r else None for r in rows[1:]] != ids:
@@ -756,6 +764,8 @@ def glue_terms(c, o):
     if mode in ("file", "stdout"):
         olds = [bytes.fromhex(x) for x in (o.get("old_hex") or [])]
         for k, hxf in enumerate(o.get("files_final") or []):
+            if k and w == "csv" and "a" in str(c.get("csv") or ""):
+                continue      # --auto: the file of the mates has its own proposed columns, which the harness cannot precompute (judged by the oracle)
             data = bytes.fromhex(hxf)
             old = olds[k] if k < len(olds) else b""
             if c.get("compressed"):
